@@ -7,6 +7,8 @@ mod shp;
 mod cmd_shape;
 mod fontgen;
 #[cfg(rustybuzz_verif)]
+mod bufops;
+#[cfg(rustybuzz_verif)]
 mod c01;
 #[cfg(rustybuzz_verif)]
 mod c02;
@@ -52,6 +54,14 @@ fn main() {
     let rest = &args[1..];
     match args[0].as_str() {
         "shape" => cmd_shape::run(rest),
+        "fontgen-selftest" => {
+            if let Err(e) = fontgen::selftest() {
+                eprintln!("fontgen-selftest: {e}");
+                std::process::exit(1);
+            }
+        }
+        #[cfg(rustybuzz_verif)]
+        "bufops" => bufops::run(rest),
         #[cfg(rustybuzz_verif)]
         "c01" => c01::run(rest),
         #[cfg(rustybuzz_verif)]
